@@ -519,7 +519,7 @@ theorem checkNoteTimer_rel : Rel cs ts' ts (checkNoteTimer (α := α)) checkNote
   exact Rel.bind (pwarn_rel _ rfl) fun _ _ _ => Rel.pure (α := α) OptRel.none_none
 
 /-- `timer` after the body: the checks and the assembly of the event -/
-def timerTail (start stop nameOffset : Nat) (mtoks : List Tok) (body : Body) : P α (Option (Ev α)) := do
+def timerTailSim (start stop nameOffset : Nat) (mtoks : List Tok) (body : Body) : P α (Option (Ev α)) := do
   checkNoteTimer
   let name ← bpText nameOffset body.name
   let cs := (← get).cs
@@ -562,13 +562,13 @@ theorem timerP_eq : timerP (α := α) = (do
             let sep := (body.name[i]?).getD dummyTok
             perr "alias-not-allowed:timer" [⟨sep.start, ((body.name.getLast?).getD sep).stop⟩]
           | none => pure ()
-        timerTail start stop nameOffset mtoks body) := by
-  unfold timerP timerTail
+        timerTailSim start stop nameOffset mtoks body) := by
+  unfold timerP timerTailSim
   rfl
 
 theorem timerTail_rel (st' st sp' sp no' no : Nat) {mt' mt : List Tok} {b' b : Body} (hb : BodySim b' b) :
-    Rel cs ts' ts (timerTail (α := α) st' sp' no' mt' b') (timerTail st sp no mt b) (OptRel (EvSim cs.uws)) := by
-  unfold timerTail
+    Rel cs ts' ts (timerTailSim (α := α) st' sp' no' mt' b') (timerTailSim st sp no mt b) (OptRel (EvSim cs.uws)) := by
+  unfold timerTailSim
   refine Rel.bind (checkNoteTimer_rel hu hts) fun _ _ _ => ?_
   refine Rel.bind (bpText_rel hu hb.name _ _) fun n' n hn => ?_
   refine Rel.bind Rel.get fun g' g hg => ?_
@@ -635,9 +635,9 @@ theorem timerP_rel : Rel cs ts' ts (timerP (α := α)) timerP (OptRel (EvSim cs.
             perr "alias-not-allowed:timer"
                 [{ start := (b'.name[i]?.getD dummyTok).start,
                     stop := (b'.name.getLast?.getD (b'.name[i]?.getD dummyTok)).stop }]
-            timerTail st' sp' no' mt' b'
-          | none => timerTail st' sp' no' mt' b'
-        else timerTail st' sp' no' mt' b')
+            timerTailSim st' sp' no' mt' b'
+          | none => timerTailSim st' sp' no' mt' b'
+        else timerTailSim st' sp' no' mt' b')
       (do
         let x ← hasExt (α := α) Gen.EXT_COMPONENT_ALIAS
         if x = true then
@@ -646,9 +646,9 @@ theorem timerP_rel : Rel cs ts' ts (timerP (α := α)) timerP (OptRel (EvSim cs.
             perr "alias-not-allowed:timer"
                 [{ start := (b.name[i]?.getD dummyTok).start,
                     stop := (b.name.getLast?.getD (b.name[i]?.getD dummyTok)).stop }]
-            timerTail st sp no mt b
-          | none => timerTail st sp no mt b
-        else timerTail st sp no mt b)
+            timerTailSim st sp no mt b
+          | none => timerTailSim st sp no mt b
+        else timerTailSim st sp no mt b)
       (OptRel (EvSim cs.uws)) := by
     refine Rel.bind (hasExt_rel _) fun x' x hx => ?_
     subst hx
